@@ -32,6 +32,7 @@ type HistOpts struct {
 	NoBadValues   bool // never submit values that the known halting defects need (used while a finding is open)
 	ValsetBias    int  // EVM registration at any time, checkpoint signing, power shifts around 5%, two-week gaps (C16)
 	Probe         bool // after every block, probe the aggregate getters and record the answers (C08)
+	Fanout        bool // a dispute story whose fee is paid from the bond of a reporter with several selectors, twice (every per-account list has several entries)
 	TieBias       bool // equal-power reporters submitting a few distinct values (equal-weight ties in weighted-mode rounds)
 	Stories       int  // percentage of histories that contain a scripted dispute life cycle
 	ValStatus     bool // SDK-native validator jail / unjail events (validators leave and re-enter the bonded set)
@@ -604,6 +605,27 @@ func (w *World) block(o HistOpts, d time.Duration, scripted ...func()) bool {
 	return ok
 }
 
+// widestReporter: the reporter (other than not) with the most selectors.
+func (w *World) widestReporter(not *Actor) *Actor {
+	var best *Actor
+	bestN := 0
+	for _, r := range w.reporters() {
+		if r.Name == not.Name {
+			continue
+		}
+		n := 0
+		for _, a := range w.Actors {
+			if s, err := w.App.ReporterKeeper.Selectors.Get(w.Ctx, a.Addr.Bytes()); err == nil && string(s.Reporter) == string(r.Addr.Bytes()) {
+				n++
+			}
+		}
+		if n > bestN {
+			best, bestN = r, n
+		}
+	}
+	return best
+}
+
 func (w *World) lastDisputeId() uint64 {
 	ids := w.disputeIds()
 	if len(ids) == 0 {
@@ -716,6 +738,24 @@ func (w *World) DisputeStory(o HistOpts) {
 		first = 10_000
 	}
 	fromBond := w.pick(4) == 0
+	if o.Fanout {
+		// the fee comes from the bond of the reporter with the most selectors (other than the disputed one), in two parts
+		if p := w.widestReporter(r); p != nil {
+			payers[0] = p
+			// ... whose own stake is spread over all validators
+			var spread []func()
+			for _, v := range w.Vals {
+				v := v
+				spread = append(spread, func() { w.Delegate(p, v, int64(2_000_000+w.pick(3_000_000))) })
+			}
+			w.block(o, 2*sec, spread...)
+		}
+		if !partial {
+			partial = true
+			first = full.Int64()/2 + 1
+		}
+		fromBond = true
+	}
 	if !w.block(o, 2*sec, func() { w.ProposeDispute(payers[0], rep, cat, first, fromBond, "story") }) {
 		return
 	}
@@ -724,14 +764,18 @@ func (w *World) DisputeStory(o HistOpts) {
 		return
 	}
 	if partial {
-		switch w.pick(3) {
+		branch := w.pick(3)
+		if o.Fanout && branch == 0 {
+			branch = 1
+		}
+		switch branch {
 		case 0: // never completed: expires after one day
 			w.block(o, 24*time.Hour+sec)
 			w.block(o, 2*sec, func() { w.WithdrawFeeRefund(payers[0], payers[0], id) }, func() { w.WithdrawFeeRefund(payers[0], payers[0], id) })
 			return
 		default:
 			// the first payer pays a second part from its bond (two stake-paid fees recorded under one dispute)
-			if fromBond && w.pick(2) == 0 {
+			if fromBond && (w.pick(2) == 0 || o.Fanout) {
 				w.block(o, 3*sec, func() { w.AddFee(payers[0], id, int64(10_000+w.pick(50_000)), true) })
 			}
 			// a plain selector (not a reporter) pays part of the fee from its bond: only its own stake may go down
@@ -1262,6 +1306,9 @@ func (w *World) RunHistory(o HistOpts) {
 	w.Bootstrap(o)
 	if o.TieBias {
 		w.TieDisputeStory(o)
+	}
+	if o.Fanout {
+		w.DisputeStory(o)
 	}
 	storyAt := -1
 	if o.Stories > 0 && w.pick(100) < o.Stories {
